@@ -493,8 +493,16 @@ func (d decoder) name(s *cryptobyte.String) (string, error) {
 
 func (d decoder) nameLabels(s *cryptobyte.String) ([]string, error) {
 	var labels []string
+	// RFC 1035 section 2.3.4 limits a name to 255 octets. Enforcing that limit,
+	// and the same limit on the number of compression pointers followed, makes
+	// the decoding of every name terminate in bounded time: a pointer may lead
+	// back to labels that lead to the same pointer again.
+	var size, pointers int
 	for {
 		for !s.Empty() && (*s)[0]&0xc0 == 0xc0 { // pointer
+			if pointers++; pointers > 255 {
+				return nil, ErrDecodeError
+			}
 			current := uintptr(unsafe.Pointer(&(*s)[0]))
 			var offset uint16
 			if !s.ReadUint16(&offset) {
@@ -513,6 +521,9 @@ func (d decoder) nameLabels(s *cryptobyte.String) ([]string, error) {
 		}
 		if len(name) == 0 {
 			break
+		}
+		if size += len(name) + 1; size > 255 {
+			return nil, ErrDecodeError
 		}
 		labels = append(labels, string(name))
 	}
